@@ -305,7 +305,7 @@ impl Engine for ProcSim {
         Meta {
             engine: "procsim",
             level: "fault_enumeration",
-            rule: "a scenario is a command tree + argv + one of five printing paths (get_matches_from; try + Error::print + exit(exit_code); try + Error::exit; print_help; print_long_help) executed in a CHILD PROCESS whose stdout and stderr the parent has arranged before the spawn: capturing pipe, pipe whose read end is already closed (EPIPE), /dev/full (ENOSPC), /dev/null. Every scenario runs under its own fault pair and under the all-capture reference; the 4x4 fault matrix is covered by seeded sampling. Non-trivial = a non-capture stream in the pair; distinct = distinct scenario hash",
+            rule: "a scenario is a command tree + argv + one of five printing paths (get_matches_from; try + Error::print + exit(exit_code); try + Error::exit; print_help; print_long_help) executed in a CHILD PROCESS whose stdout and stderr the parent has arranged before the spawn: capturing pipe, pipe whose read end is already closed (EPIPE), /dev/full (ENOSPC), /dev/null. Every scenario runs under its own fault pair and under the all-capture reference; the 4x4 fault matrix is covered by seeded sampling. Non-trivial = a non-capture stream in the pair; distinct = distinct scenario hash. Added during the build phase: Command::color(Never / Always / Auto), programs without help flag / help subcommand, near-miss bare words; riders on every tip and on the closing line",
             real_components: &["clap_builder::error::Error::{print, exit, exit_code, use_stderr}", "clap_builder::output::fmt::Colorizer::print", "Command::get_matches_from / print_help", "the real file descriptors of a real child process"],
             stub_components: &["the parent arranges the child's stdout/stderr (closed pipe, /dev/full, /dev/null, capture)"],
             workload_only_clauses: &["which error kind an argv produces is taken from an in-process parse of the same scenario; whether that kind is justified is not decided here"],
